@@ -21,6 +21,7 @@ REGISTRY = {
     'C09': ('checks.comments', 'check_c09', 'other'),
     'C10': ('checks.limits', 'check_c10', 'other'),
     'C11': ('checks.limits', 'check_c11', 'other'),
+    'C12': ('checks.cost', 'check_c12', 'exploration'),
     'C13': ('checks.walk', 'check_c13', 'model_checking'),
     'C14': ('checks.walk', 'check_c14', 'fault_enumeration'),
     'C15': ('checks.registry', 'check_c15', 'model_checking'),
